@@ -84,73 +84,98 @@ fn n_established(s: &Server) -> usize {
 
 // ---- C07 ------------------------------------------------------------------------------------
 
-fn server_connect_requires_nonce(from_b: bool) {
+//@h props=C07,C18 tier=quick timeout=1800 role=server-syn-reply args=--no-memory-safety-checks
+//@fn Server::{handle_frame, handle_handshake_syn}, Frame::write (SYN-ACK, error)
+//@bound empty server, limits (4, 4); config: max_packet_size / max_receive_alloc / max_send_rate any valid; ONE SYN with every field any from address A
+//@assume VecMap for HashMap; opaque connection model; socket model; nonce source = any u32; crc::compute stubbed (constant); Kani pointer checks off (lifecycle logic only)
+#[kani::proof]
+#[kani::unwind(6)]
+#[kani::stub(crate::frame::serial::crc::compute, crate::frame::serial::verif_codec::crc_stub)]
+fn o7_1_server_syn_reply() {
     let cfg = any_cfg();
     let mut s = mk_server(4, 4, cfg.clone());
     let syn = any_syn(false, &cfg);
-    let t0 = 1000;
-    s.handle_frame(addr(A), frame::Frame::HandshakeSynFrame(syn.clone()), t0);
+    s.handle_frame(addr(A), frame::Frame::HandshakeSynFrame(syn.clone()), 1000);
     let accepted = class_of(&s, A) == 1;
     let ok = syn.version == PROTOCOL_VERSION && (syn.max_receive_alloc as usize) >= cfg.max_packet_size && (syn.max_packet_size as usize) <= cfg.max_receive_alloc;
     assert!(accepted == ok, "[C07] a compatible SYN is tracked, an incompatible one is not");
     assert!(s.socket.sent_n() == 1 && s.socket.sent(0).port == A, "[C07,C18] exactly one reply, to the sender");
     let r = s.socket.sent(0);
-    let mut server_nonce = 0;
     if ok {
         assert!(r.len == 25 && r.head[0] == 1 && be32(&r.head, 1) == syn.nonce, "[C07] SYN-ACK echoes the client's nonce");
-        server_nonce = be32(&r.head, 5);
-        assert!(unsafe { env::RANDOM_CALLS } == 1 && server_nonce == unsafe { env::RANDOM_LAST }, "[C07] the SYN-ACK carries a freshly drawn nonce");
+        assert!(unsafe { env::RANDOM_CALLS } == 1 && be32(&r.head, 5) == unsafe { env::RANDOM_LAST }, "[C07] the SYN-ACK carries a freshly drawn nonce");
     } else {
         assert!(r.len == 10 && r.head[0] == 3 && be32(&r.head, 1) == syn.nonce, "[C07] a refusal echoes the client's nonce");
-        let code = r.head[5];
-        if syn.version != PROTOCOL_VERSION { assert!(code == 0, "[C07] version mismatch refused with Version"); }
-        else { assert!(code == 1, "[C07] configuration mismatch refused with Config"); }
+        if syn.version != PROTOCOL_VERSION { assert!(r.head[5] == 0, "[C07] version mismatch refused with Version"); }
+        else { assert!(r.head[5] == 1, "[C07] configuration mismatch refused with Config"); }
     }
-    assert!(count_events(&s, A).0 == 0, "[C07] no Connect before the nonce came back");
-    // the ACK
-    let ack_nonce: u32 = kani::any();
-    let t1 = 1500;
-    s.handle_frame(addr(if from_b { B } else { A }), frame::Frame::HandshakeAckFrame(frame::HandshakeAckFrame { nonce_ack: ack_nonce }), t1);
-    let (ca, _, _, _) = count_events(&s, A);
-    let (cb, _, _, _) = count_events(&s, B);
-    assert!(cb == 0 && class_of(&s, B) == 0, "[C07] an ACK from an address that never sent a SYN creates nothing");
-    if ok && !from_b && ack_nonce == server_nonce {
-        assert!(ca == 1 && class_of(&s, A) == 2, "[C07] Connect once the address returned the server's nonce");
-        let hc = match s.clients.get(&addr(A)).unwrap().borrow().state { remote_client::State::Active(ref st) => st.half_connection.config.clone().unwrap(), _ => panic!("not active") };
-        assert!(hc.tx_frame_base_id == server_nonce && hc.rx_frame_base_id == syn.nonce, "[C07] frame ids start at the exchanged nonces");
-        assert!(hc.tx_packet_base_id == (server_nonce & 0xFFFFF) && hc.rx_packet_base_id == (syn.nonce & 0xFFFFF));
-        assert!(hc.tx_bandwidth_limit == (cfg.max_send_rate as u32).min(syn.max_receive_rate), "[C07,C13] rate ceiling = min(local max_send_rate, peer max_receive_rate)");
-        assert!(hc.tx_alloc_limit == syn.max_receive_alloc as usize && hc.rx_alloc_limit == cfg.max_receive_alloc, "[C07,C06] allocation limits");
-        assert!(hc.tx_frame_window_size == 4096 && hc.rx_frame_window_size == 4096 && hc.tx_packet_window_size == 4096 && hc.rx_packet_window_size == 4096);
-    } else {
-        assert!(ca == 0 && unsafe { oq::NEW_COUNT } == 0, "[C07] no Connect without the right nonce from the right address");
-        assert!(class_of(&s, A) == if ok { 1 } else { 0 });
-    }
-    kani::cover!(ca == 1, "handshake completed");
-    kani::cover!(ok && !from_b && ack_nonce != server_nonce, "wrong nonce");
+    assert!(s.events_out.len() <= 1 && count_events(&s, A).0 == 0, "[C07] no Connect before the nonce came back");
+    kani::cover!(ok, "accepted");
+    kani::cover!(!ok && syn.version == PROTOCOL_VERSION, "config refusal");
     std::mem::forget(s);
 }
 
+fn server_ack_gate(from_b: bool) {
+    let cfg = any_cfg();
+    let mut s = mk_server(4, 4, cfg.clone());
+    let syn = any_syn(true, &cfg);
+    s.handle_frame(addr(A), frame::Frame::HandshakeSynFrame(syn.clone()), 1000);
+    let server_nonce = unsafe { env::RANDOM_LAST };
+    let ack_nonce: u32 = kani::any();
+    s.handle_frame(addr(if from_b { B } else { A }), frame::Frame::HandshakeAckFrame(frame::HandshakeAckFrame { nonce_ack: ack_nonce }), 1500);
+    let ca = count_events(&s, A).0;
+    assert!(count_events(&s, B).0 == 0 && class_of(&s, B) == 0, "[C07] an ACK from an address that never sent a SYN creates nothing");
+    if !from_b && ack_nonce == server_nonce {
+        assert!(ca == 1 && class_of(&s, A) == 2 && unsafe { oq::NEW_COUNT } == 1, "[C07] Connect once the address returned the server's nonce");
+    } else {
+        assert!(ca == 0 && unsafe { oq::NEW_COUNT } == 0 && class_of(&s, A) == 1, "[C07] no Connect without the right nonce from the right address");
+    }
+    if !from_b { kani::cover!(ca == 1, "handshake completed"); kani::cover!(ca == 0, "wrong nonce"); }
+    std::mem::forget(s);
+}
 
-//@h props=C07,C18,C08 tier=quick timeout=1800 role=server-handshake
-//@fn Server::{handle_frame, handle_handshake_syn, handle_handshake_ack}, Frame::write (SYN-ACK, error)
-//@bound empty server, limits (4, 4); config: max_packet_size / max_receive_alloc / max_send_rate any valid; SYN with every field any from address A; then ACK with ANY nonce from A
-//@assume VecMap for HashMap; opaque connection model; socket model; nonce source = any u32; crc::compute stubbed (constant)
-#[kani::proof]
-#[kani::unwind(6)]
-#[kani::stub(crate::frame::serial::crc::compute, crate::frame::serial::verif_codec::crc_stub)]
-fn o7_1_server_connect_requires_nonce() { server_connect_requires_nonce(false); }
-
-//@h props=C07,C18,C08 tier=quick timeout=1800 role=server-handshake
+//@h props=C07,C08 tier=quick timeout=1800 role=server-ack-gate args=--no-memory-safety-checks
 //@fn Server::{handle_frame, handle_handshake_syn, handle_handshake_ack}
-//@bound as o7_1_server_connect_requires_nonce, but the ACK (any nonce, the right one included) comes from another address B
-//@assume VecMap for HashMap; opaque connection model; socket model; nonce source = any u32; crc::compute stubbed (constant)
+//@bound compatible SYN (fields any) from A, then ACK with ANY nonce from A
+//@assume VecMap; opaque connection model; socket model; nonce source any; crc stubbed; pointer checks off
 #[kani::proof]
 #[kani::unwind(6)]
 #[kani::stub(crate::frame::serial::crc::compute, crate::frame::serial::verif_codec::crc_stub)]
-fn o7_1_server_ack_from_other_address() { server_connect_requires_nonce(true); }
+fn o7_1_server_connect_requires_nonce() { server_ack_gate(false); }
 
-//@h props=C07,C08 tier=quick timeout=1500 role=server-no-reset
+//@h props=C07,C08 tier=quick timeout=1800 role=server-ack-gate args=--no-memory-safety-checks
+//@fn Server::{handle_frame, handle_handshake_syn, handle_handshake_ack}
+//@bound compatible SYN from A, then ACK with ANY nonce (the right one included) from another address B
+//@assume VecMap; opaque connection model; socket model; nonce source any; crc stubbed; pointer checks off
+#[kani::proof]
+#[kani::unwind(6)]
+#[kani::stub(crate::frame::serial::crc::compute, crate::frame::serial::verif_codec::crc_stub)]
+fn o7_1_server_ack_from_other_address() { server_ack_gate(true); }
+
+//@h props=C07,C13,C06 tier=quick timeout=1800 role=server-negotiation args=--no-memory-safety-checks
+//@fn Server::{handle_frame, handle_handshake_syn, handle_handshake_ack}
+//@bound compatible SYN (fields any) from A, then the genuine ACK: the Config handed to the connection
+//@assume VecMap; opaque connection model (records its Config); socket model; nonce source any; crc stubbed; pointer checks off
+#[kani::proof]
+#[kani::unwind(6)]
+#[kani::stub(crate::frame::serial::crc::compute, crate::frame::serial::verif_codec::crc_stub)]
+fn o7_3_server_negotiated_config() {
+    let cfg = any_cfg();
+    let mut s = mk_server(4, 4, cfg.clone());
+    let syn = any_syn(true, &cfg);
+    s.handle_frame(addr(A), frame::Frame::HandshakeSynFrame(syn.clone()), 1000);
+    let server_nonce = unsafe { env::RANDOM_LAST };
+    s.handle_frame(addr(A), frame::Frame::HandshakeAckFrame(frame::HandshakeAckFrame { nonce_ack: server_nonce }), 1500);
+    let hc = match s.clients.get(&addr(A)).unwrap().borrow().state { remote_client::State::Active(ref st) => st.half_connection.config.clone().unwrap(), _ => panic!("[C07] not connected") };
+    assert!(hc.tx_frame_base_id == server_nonce && hc.rx_frame_base_id == syn.nonce, "[C07] frame ids start at the exchanged nonces");
+    assert!(hc.tx_packet_base_id == (server_nonce & 0xFFFFF) && hc.rx_packet_base_id == (syn.nonce & 0xFFFFF), "[C07] packet ids start at the exchanged nonces (20 bit)");
+    assert!(hc.tx_bandwidth_limit == (cfg.max_send_rate as u32).min(syn.max_receive_rate), "[C07,C13] rate ceiling = min(local max_send_rate, peer max_receive_rate)");
+    assert!(hc.tx_alloc_limit == syn.max_receive_alloc as usize && hc.rx_alloc_limit == cfg.max_receive_alloc, "[C07,C06] allocation limits: peer's for sending, ours for receiving");
+    assert!(hc.tx_frame_window_size == 4096 && hc.rx_frame_window_size == 4096 && hc.tx_packet_window_size == 4096 && hc.rx_packet_window_size == 4096);
+    std::mem::forget(s);
+}
+
+//@h props=C07,C08 tier=quick timeout=1500 role=server-no-reset args=--no-memory-safety-checks
 //@fn Server::{handle_frame, handle_handshake_syn, handle_handshake_ack}
 //@bound server with an ESTABLISHED connection for A (handshake run through the code); then a second SYN (fields any) or an ACK (nonce any) from A
 //@assume VecMap; opaque connection model; socket model; nonce source any; crc stubbed
@@ -189,7 +214,7 @@ fn complete_handshake(s: &mut Server, port: u16, cfg: &EndpointConfig, t: u64) -
     true
 }
 
-//@h props=C17 tier=quick timeout=2400 role=server-limits-overlap
+//@h props=C17 tier=quick timeout=2400 role=server-limits-overlap args=--no-memory-safety-checks
 //@fn Server::{handle_frame, handle_handshake_syn, handle_handshake_ack}
 //@bound limits (max_total 2, max_active 1); addresses A, B; compatible SYNs from both BEFORE any ACK, then both ACKs with the nonces the server generated
 //@assume VecMap; opaque connection model; socket model; nonce source any; crc stubbed
@@ -214,7 +239,7 @@ fn o17_1_many_syns_before_any_ack() {
     std::mem::forget(s);
 }
 
-//@h props=C17 tier=quick timeout=2400 role=server-limits-total
+//@h props=C17 tier=quick timeout=2400 role=server-limits-total args=--no-memory-safety-checks
 //@fn Server::{handle_frame, handle_handshake_syn}
 //@bound limits (max_total 1, max_active 1); compatible SYN from A, then compatible SYN from B
 //@assume VecMap; opaque connection model; socket model; nonce source any; crc stubbed
@@ -235,7 +260,7 @@ fn o17_1_total_limit_refuses_with_server_full() {
     std::mem::forget(s);
 }
 
-//@h props=C17 tier=quick timeout=2400 role=server-limits-capacity-returns
+//@h props=C17 tier=quick timeout=2400 role=server-limits-capacity-returns args=--no-memory-safety-checks
 //@fn Server::{handle_frame, handle_handshake_syn, handle_handshake_ack, handle_disconnect, handle_events, handle_event, drop}, retain of active_clients as in step()
 //@bound limits (1, 1); A connects; A's connection ends by application drop() or by peer Disconnect + closed-state timeout (any); then B's handshake
 //@assume VecMap; opaque connection model; socket model; nonce source any; crc stubbed
@@ -264,7 +289,7 @@ fn o17_1_capacity_returns_after_connection_ends() {
 
 // ---- C18 ------------------------------------------------------------------------------------
 
-//@h props=C18 tier=quick timeout=2400 role=server-amplification
+//@h props=C18 tier=quick timeout=2400 role=server-amplification args=--no-memory-safety-checks
 //@fn Server::{handle_frame (all handlers), handle_events, handle_event}
 //@bound address A untracked or Pending (entry created by the code from a SYN with any fields); then ONE of: any frame of any type from A (fields any), or a timer evaluation at any time; bytes received counted at each frame type's exact wire size (decided by the codec obligations: SYN = 1472)
 //@assume VecMap; opaque connection model; socket model; nonce source any; crc stubbed
